@@ -56,6 +56,34 @@ Theorem frozen_after_arrival :
 Proof. exact frozen_after_arrival_start. Qed.
 Print Assumptions frozen_after_arrival.
 
+(* THE VALUE STATEMENT, end to end: for an associative-commutative operator whose identity is the initial value, every
+   value delivered by a completed wait is the reduction of exactly the multiset of submitted values -- for every
+   count (zero included), every placement of the submitters on valid slots, every schedule -- and at that time every
+   expected submission has been made and folded in (all_arrived).  No guard on the count since /repo 15fe3d8. *)
+Theorem sinc_value :
+  forall (V : Type) (vop : V -> V -> V),
+    (forall a b c : V, vop (vop a b) c = vop a (vop b c)) -> (forall a b : V, vop a b = vop b a) ->
+    forall (hd : bool) (iv : V) (ns : nat) (c : Z) (progs : list (list (op V))) (sched : list nat) (i : nat) (t : thr V) (r : V),
+      (forall x, vop iv x = x) -> Forall (Forall (progok V ns)) progs ->
+      let s := exec V vop (start V hd iv ns c progs) sched in
+      clean V s -> nth_error (thrs s) i = Some t -> In (Some r) (t_got t) ->
+      r = reduce V vop (submitted s) iv /\ all_arrived V s.
+Proof. exact sinc_value_start. Qed.
+Print Assumptions sinc_value.
+
+(* the same for the generation that follows qt_sinc_reset on any state: a reset sinc behaves like a fresh one *)
+Theorem sinc_value_after_reset :
+  forall (V : Type) (vop : V -> V -> V),
+    (forall a b c : V, vop (vop a b) c = vop a (vop b c)) -> (forall a b : V, vop a b = vop b a) ->
+    forall (s0 : state V) (n : Z) (progs : list (list (op V))) (sched : list nat) (i : nat) (t : thr V) (r : V),
+      (forall x, vop (initv s0) x = x) -> Forall (Forall (progok V (nslots s0))) progs ->
+      let s := exec V vop (reset V s0 n progs) sched in
+      clean V s -> nth_error (thrs s) i = Some t -> In (Some r) (t_got t) ->
+      r = reduce V vop (submitted s) (initv s0) /\ all_arrived V s.
+Proof. exact sinc_value_reset. Qed.
+Print Assumptions sinc_value_after_reset.
+
+(* the components the value statement is assembled from (kept: they hold without the proviso) *)
 (* value, part 1: for an associative-commutative operator a slot update folds the value into the total of the slots
    exactly as into the multiset of submitted values, whichever slot (placement) is used *)
 Theorem sinc_value_partial_slot_update :
